@@ -224,7 +224,7 @@ func cmdCheck(args []string) int {
 	// per-harness wall-clock budget: an exploration that blows up (e.g. on a modified tree) is cut and reported as truncated
 	budget := 240 * time.Second
 	if *tier == "thorough" {
-		budget = 10 * time.Minute
+		budget = 6 * time.Minute
 	}
 	var sums []*HarnessSummary
 	var allViol []*Violation
